@@ -19,7 +19,7 @@ LEVEL_NOTE = "reference lookup: last coordinate <= value, 0 below the axis, n ab
 RULE = (
     "Hypothesis: time axis t0 + i*dt (n_t in 1..12), frequency axis f0 + j*df (n_f in 1..12), dims order drawn, contents drawn (zeros / ramp / NaN); "
     "0-4 geometries from {BoundingBox, TimeInterval, Polygon (rect, triangle, L, diamond), MultiPolygon, LineString, Point, TimeStamp, MultiPoint} with vertices "
-    "at quarter-bin positions from 2 bins before to 2 bins after each axis; values scalar / list / wrong-length list, fill, dtype in {float32, float64, int32, uint8, int16, uint16, uint32, int64} with values and fill exactly representable in it (0-9 or a per-dtype palette such as 0.1, 2^24+1, 2^32-1), "
+    "at quarter-bin positions from 2 bins before to 2 bins after each axis; a quarter of the lists repeat their first geometry later on; values scalar / list / wrong-length list, fill, dtype in {float32, float64, int32, uint8, int16, uint16, uint32, int64} with values and fill exactly representable in it (0-9 or a per-dtype palette such as 0.1, 2^24+1, 2^32-1), "
     "all_touched on/off. Non-trivial = non-square template, or >= 2 geometries with different values whose bounding bins overlap."
 )
 ASSUMPTIONS = [
@@ -116,6 +116,9 @@ def case(draw):
         else:
             g = {"type": kind, "coordinates": [[T(tq()), F(fq())] for _ in range(draw(st.integers(1, 3)))]}
         geoms.append(g)
+    if len(geoms) >= 2 and draw(st.integers(0, 3)) == 0:
+        # an earlier geometry listed again after others (an annotation revisited): the LAST occurrence decides the overlap cells
+        geoms.insert(draw(st.integers(2, len(geoms))), {"type": geoms[0]["type"], "coordinates": geoms[0]["coordinates"]})
     vmode = draw(st.sampled_from(["scalar", "list", "list", "default", "wrong_len"]))
     dtype = draw(st.sampled_from(DTYPES + ["float32", "float64", "int32", "uint8"]))
     val = st.one_of(st.integers(0, 9), st.integers(0, 9), st.sampled_from(PALETTE[dtype]))
